@@ -43,4 +43,9 @@ def all_formats():
         out += fmtcat.extra_formats()
     except ImportError:
         pass
+    try:  # TEMPORARY (pnum branch): wire the syntax-layer catalogue
+        import fmtcat_pnum
+        out += fmtcat_pnum.extra_formats()
+    except ImportError:
+        pass
     return out
